@@ -22,7 +22,7 @@ Definition site_table : list (string * string * string * string * why) := [
   ("nginx/config/servers.go", "needsInternalLocations", "index", "MatchRules[0]", Unreachable "guarded by len(rule.MatchRules) == 1");
   ("state/dataplane/configuration.go", "buildServers", "panic", "", Unreachable "C05.Proofs.build_servers_never_panics: every hostname with rules has a listener");
   ("state/dataplane/convert.go", "convertPathType", "panic", "", Unreachable "rules whose match has another path type fail validatePathMatch and are skipped (ValidMatches)");
-  ("state/graph/backend_refs.go", "findBackendTLSPolicyForService", "index", "Conditions[0]", Unreachable "an invalid policy always carries the condition that made it invalid");
+  ("state/graph/backend_refs.go", "findBackendTLSPolicyForService", "index", "Conditions[0]", Unreachable "guarded by len(Conditions) > 0 (finding D41, repaired: an ignored policy has no condition)");
   ("state/graph/backend_refs.go", "getRefGrantFromResourceForRoute", "panic", "", TypeSwitch);
   ("state/graph/backend_tls_policy.go", "processBackendTLSPolicies", "index", "CACertificateRefs[0]", Unreachable "guarded by len(CACertificateRefs) > 0 (finding D29, repaired)");
   ("state/graph/backend_tls_policy.go", "validateBackendTLSCACertRef", "index", "CACertificateRefs[0]", Unreachable "called only when len(caCertRefs) > 0");
